@@ -389,6 +389,12 @@ def execute(plan):
             bump("reference_failed:" + proc + ":" + ref.value)
             return {"violation": None, "digest": log.digest(), "steps": steps,
                     "counters": counters, "cov": [], "nontrivial": False}
+        if any(e.status not in ("optimal", None) for e in seam.events):
+            # the solver itself flags a reference solve as inaccurate (iteration limit,
+            # 'optimal_inaccurate'): nothing reliable to compare against in this run
+            bump("reference_solver_status_not_optimal:" + proc)
+            return {"violation": None, "digest": log.digest(), "steps": steps,
+                    "counters": counters, "cov": [], "nontrivial": False}
         Xref, Bref = (np.array(v, copy=True) for v in ref.value)
         n_src = A.shape[1]
 
@@ -478,6 +484,13 @@ def execute(plan):
                     f"{proc}: n={n}, batch_size={bs!r} raised {out.brief()} although the "
                     f"batch_size=1 reference succeeded", ex=ex, exc=out.value, n=n)
             X, B = (np.asarray(v) for v in out.value)
+            if any(e.status not in ("optimal", None) for e in seam.events):
+                # accuracy disclaimed by the solver for this call: values are not compared
+                bump("execution_solver_status_not_optimal:" + proc)
+                if X.shape != (n, n_src) or not np.all(np.isfinite(B)):
+                    raise Violation(ID, "wrong_shape", f"{proc}: result shapes {X.shape}/"
+                                    f"{B.shape} for {n} rows", ex=ex)
+                continue
             check_rows(X, B, seq, ex, "clean execution" if not fault else
                        "execution after an aborted call")
             nontriv = n >= 2 and (bs != 1 or seq != list(range(n)))
